@@ -1,6 +1,8 @@
 ENGINES = [
-    {'name': 'E1-enum', 'path': 'mc/engine_enum.py', 'serves_properties': ['C01', 'C02'],
+    {'name': 'E1-enum', 'path': 'mc/engine_enum.py', 'serves_properties': ['C01', 'C02', 'C04', 'C05', 'C06'],
      'kind_free_text': 'sharded exhaustive enumeration of a finite input/configuration space of the real code against a reference model'},
+    {'name': 'E2-bfs', 'path': 'mc/engine_bfs.py', 'serves_properties': ['C04', 'C05'],
+     'kind_free_text': 'explicit-state breadth-first search over live implementation objects (state = replayable operation history, canonicalised from the complete vars() of the objects), level-parallel'},
 ]
 NOTES = 'All checks are bounded exhaustive explorations of the real mido code (imported from the /repo working tree) against independent reference models; see DESIGN.md.'
 NOT_YET = {}
@@ -15,3 +17,19 @@ CHECKS['C02'] = dict(
     technique='exhaustive enumeration of all 16.8M integer sequences of length <= 3 (and length 4-6 over a boundary alphabet, odd items) of the implementation against a reference acceptor',
     text='Message.from_bytes is called on every integer sequence of length 0..3 over 0..255 (complete), on every sequence of length 4..5 (6 thorough) over a 14-symbol boundary alphabet, and on out-of-byte and non-integer items at every position of one template per status family; from_hex over the hex renderings. An independent reference acceptor decides VALID (message must reproduce the input) or INVALID (exactly ValueError; TypeError only for non-integers).',
     note='Trusted: reference acceptor mc/ref/midi.py. Sequences longer than 3 only over the boundary alphabet.')
+
+CHECKS['C04'] = dict(
+    engine='E2-bfs', category='model_checking', design_ref='DESIGN.md 5/C04',
+    technique='explicit-state search of the real Parser to a fixed point (every reachable state x all 256 bytes) plus exhaustive enumeration of all strings up to a length bound over a byte-class alphabet',
+    text='The real Parser/Tokenizer is explored as a transition system: BFS to a fixed point over canonical states (complete vars()), feeding each of the 256 byte values from every reachable state, so totality and per-step soundness hold for streams of any length within the payload bound; additionally every string of length <= 5 (6 thorough) over a 15-symbol byte-class alphabet is parsed through three entry points and judged by the statement itself (valid messages, real-time one-to-one, subsequence).',
+    note='Oracle is the property statement (no mido tables). Data byte values are abstracted to representatives for expansion only; sysex payload bound L=3 (5 thorough). The sampled long-random-stream clause is replaced by the closure argument.')
+CHECKS['C05'] = dict(
+    engine='E2-bfs', category='model_checking', design_ref='DESIGN.md 5/C05',
+    technique='breadth-first search over feed/retrieve operation histories of the live Parser and ParserQueue against a FIFO model, plus exhaustive enumeration of every chunking of every string up to a length bound',
+    text='All histories up to depth 10 (13 thorough) of feed_byte/feed/get_message/pending/len/live-iterator/list operations (Parser) and put_bytes/poll/get/iterpoll (ParserQueue) are executed on real objects and compared step by step with a FIFO model; every string of length <= 5 (6) over a 9-symbol alphabet is fed in every one of its 2^(n-1) chunkings with varying call forms and must equal the one-shot parse.',
+    note='FIFO model derives the message list from the one-shot parse of all bytes fed (whose soundness is C04/C06). Pending queue bounded at 3 for expansion. Depth-bounded, not a fixed point.')
+CHECKS['C06'] = dict(
+    engine='E1-enum', category='exploration', design_ref='DESIGN.md 5/C06',
+    technique='exhaustive enumeration of (prefix, message) pairs, message concatenations and real-time insertions into sysex, executed on the real parser',
+    text='Every prefix string of length <= 4 (5 thorough) over the 15-symbol byte-class alphabet and every proper prefix of every sample message, combined with 29 sample messages covering all 18 types; every concatenation of up to 3 messages; every multiset of up to 3 insertion positions strictly inside a sysex encoding x all 8 real-time byte values. The oracle is the statement itself.',
+    note='Messages limited to 29 representatives (one per type/length class/extreme); prefixes to the class alphabet.')
